@@ -56,6 +56,23 @@ ENV = """
             self.n -= 1;
             v.unwrap()
         }
+        /// removes element i and puts the last one in its place, like std's Vec::swap_remove
+        pub fn swap_remove(&mut self, i: usize) -> T {
+            assert!(i < self.n);
+            let v = self.slots[i].take();
+            if i + 1 < self.n { self.slots[i] = self.slots[self.n - 1].take(); }
+            self.n -= 1;
+            v.unwrap()
+        }
+        pub fn insert(&mut self, i: usize, v: T) {
+            assert!(i <= self.n && self.n < 6);
+            let mut j = self.n;
+            while j > i { self.slots[j] = self.slots[j - 1].take(); j -= 1; }
+            self.slots[i] = Some(v);
+            self.n += 1;
+        }
+        pub fn truncate(&mut self, len: usize) { while self.n > len { self.n -= 1; self.slots[self.n] = None; } }
+        pub fn clear(&mut self) { self.truncate(0); }
         pub fn iter(&self) -> impl Iterator<Item = &T> { self.slots.iter().filter_map(|s| s.as_ref()) }
         pub fn iter_mut(&mut self) -> impl Iterator<Item = &mut T> { self.slots.iter_mut().filter_map(|s| s.as_mut()) }
     }
@@ -367,7 +384,10 @@ def spec(tier, seed):
     if slice_error is None:
         for op, (body, pre) in STEPS.items():
             b.add(ctx, "vk_c03_step_" + op, body + (STEP_POST if op != "new" else "        std::mem::forget(c);\n"),
-                  unwind=8, tier="quick", cost=100,
+                  unwind=8, tier="quick", cost=100, timeout=1500, mem_gb=12,
+                  # the handler push unrolls `while top is an argument list { do_pop }` to the unwinding bound: 300 s / < 8 GB on an idle
+                  # machine, out of memory at 12 GB on a loaded one - listed as undecided then, not a core instance
+                  core=(op != "push_error_handler_context"),
                   bounds="one %s from %s: up to 4 variable blocks and 4 activation states, any reference counts, any assignment of "
                          "states to blocks, up to two STATIC subprograms, constrained only by the representation invariant (an inductive step: "
                          "covers call histories of any length)" % (op, pre),
